@@ -5,7 +5,7 @@
 From Coq Require Import Reals List Lra.
 From Cyecca Require Import Base.Ops Spec.Mat Spec.Rot Spec.Semidirect
   Gen.SO2 Gen.SE2 Gen.Rn Gen.SO3Quat Gen.SO3Mrp Gen.SO3Dcm Gen.SE3Quat Gen.SE3Mrp Gen.SE23Quat Gen.SE23Mrp
-  Proofs.C01_planar Proofs.C01_SO3Quat Proofs.C01_SO3Mrp Proofs.C01_SO3Dcm Proofs.C01_SE3 Proofs.Shepperd Proofs.Conv.
+  Proofs.C01_planar Proofs.C01_SO3Quat Proofs.C01_SO3Mrp Proofs.C01_SO3Dcm Proofs.C01_DcmClosure Proofs.C01_SE3 Proofs.Shepperd Proofs.Conv.
 Import ListNotations.
 Local Open Scope R_scope.
 
@@ -76,6 +76,10 @@ Theorem C01_SO3Dcm_id_param : id_param_law SO3Dcm_product_v SO3Dcm_identity_v le
 Theorem C01_SO3Dcm_identity_is_rotation : proper_rotation SO3Dcm_identity_v.  Proof. exact dcm_identity_proper. Qed.
 Theorem C01_SO3Dcm_inverse_is_rotation : forall a, proper_rotation a -> proper_rotation (SO3Dcm_inverse_v a).
 Proof. exact dcm_inverse_proper. Qed.
+(* closure: the DCM product of two proper rotations is a proper rotation (orthonormal, det = 1) *)
+Theorem C01_SO3Dcm_product_is_rotation : forall a b, proper_rotation a -> proper_rotation b ->
+  proper_rotation (SO3Dcm_product_v a b).
+Proof. exact dcm_product_proper. Qed.
 Theorem C01_SO3Dcm_assoc : forall a b c, len9 a -> len9 b -> len9 c ->
   SO3Dcm_product_v (SO3Dcm_product_v a b) c = SO3Dcm_product_v a (SO3Dcm_product_v b c).  Proof. exact dcm_assoc_param. Qed.
 Theorem C01_SO3Dcm_from_Matrix : forall a, len9 a -> SO3Dcm_from_Matrix_v (SO3Dcm_to_Matrix_v a) = a.
@@ -157,6 +161,7 @@ Print Assumptions C01_SO3Dcm_id.
 Print Assumptions C01_SO3Dcm_id_param.
 Print Assumptions C01_SO3Dcm_identity_is_rotation.
 Print Assumptions C01_SO3Dcm_inverse_is_rotation.
+Print Assumptions C01_SO3Dcm_product_is_rotation.
 Print Assumptions C01_SO3Dcm_assoc.
 Print Assumptions C01_SO3Dcm_from_Matrix.
 Print Assumptions C01_semidirect_SE3_generic.
